@@ -208,8 +208,11 @@ pub fn classify(name: &str, a: &[A]) -> String {
     }
     let mut parts = vec![];
     match name {
-        "String.to_lowercase" | "String.to_uppercase" => parts.push(crate::unicode::str_case_class(a[0].s())),
-        "String.trim" | "String.trim_start" | "String.trim_end" => parts.push(crate::unicode::str_ws_class(a[0].s())),
+        // the documented meaning of these depends on a per-code-point Unicode property only: that is the class
+        "String.to_lowercase" | "String.to_uppercase" => return crate::unicode::str_case_class(a[0].s()),
+        "String.trim" | "String.trim_start" | "String.trim_end" => return crate::unicode::str_ws_class(a[0].s()),
+        // a history: its shape is in the name; the class is what it starts from
+        _ if name.contains('#') => return format!("init={}", if a[0].s().starts_with('N') { "new" } else { str_class(a[1].s()) }),
         _ => {}
     }
     for x in a {
